@@ -239,10 +239,10 @@ example : (estSeq 1 (#v[#v[2/3, -1/3], #v[-1/3, 2/3]] : Mat Rat 2 2)
     (#v[#v[1, 0], #v[0, 1], #v[1, 1]] : Mat Rat 3 2) (#v[0, 0, 1/2] : Vec Rat 3)
     [[(10, [1/4, 3/4]), (0, [3/2])]]) = .error .notFullRank := by decide +kernel
 
-/-- mixed outcome counts: `np.vstack` raises -/
+/-- mixed outcome counts (distributions of lengths 1 and 2) are concatenated -/
 example : estimate 2 (#v[#v[2/3, -1/3], #v[-1/3, 2/3]] : Mat Rat 2 2)
     (#v[#v[1, 0], #v[0, 1], #v[1, 1]] : Mat Rat 3 2) (#v[0, 0, 1/2] : Vec Rat 3)
-    [(1, [1/4]), (1, [3/4, 3/2])] = .error .ragged := by decide +kernel
+    [(1, [1/4]), (1, [3/4, 3/2])] = .ok #v[1/4, 3/4] := by decide +kernel
 
 example : lsqCert (#v[#v[1, 0], #v[0, 1], #v[1, 1]] : Mat Rat 3 2) (#v[0, 0, 1/2] : Vec Rat 3)
     (#v[1/4, 3/4, 3/2] : Vec Rat 3) (#v[1/4, 3/4] : Vec Rat 2) 0 = true := by decide +kernel
